@@ -1,4 +1,7 @@
 import KoalaVerif.Model.Ham
+import KoalaVerif.Props.C12
+import Mathlib.Data.List.Count
+import Mathlib.Data.List.Perm.Basic
 import Mathlib.LinearAlgebra.Matrix.Charpoly.Basic
 import Mathlib.LinearAlgebra.Matrix.Hermitian
 import Mathlib.Data.Matrix.Block
@@ -283,5 +286,73 @@ theorem fermion_hermitian (F D M : Matrix n n ℂ)
     ext i j; simp; ring
 
 end fermion
+
+/-! ### bisection: the halves separate the dimers, whatever permutation `argsort` returns -/
+
+/-- a non-decreasing list of zeros and ones has its zeros first: position `i` holds a zero iff `i` is below the number of zeros -/
+theorem sorted01_split : ∀ (l : List Nat), l.Pairwise (· ≤ ·) → (∀ x ∈ l, x ≤ 1) →
+    ∀ i (hi : i < l.length), (l[i] = 0 ↔ i < l.count 0) := by
+  intro l
+  induction l with
+  | nil => intro _ _ i hi; simp at hi
+  | cons a t ih =>
+    intro hs h01 i hi
+    rw [List.pairwise_cons] at hs
+    have h01t : ∀ x ∈ t, x ≤ 1 := fun x hx => h01 x (List.mem_cons_of_mem _ hx)
+    by_cases ha : a = 0
+    · subst ha
+      cases i with
+      | zero => simp
+      | succ i =>
+        have hi' : i < t.length := by simpa using hi
+        simp only [List.getElem_cons_succ, List.count_cons_self]
+        rw [ih hs.2 h01t i hi']
+        omega
+    · have ha1 : a = 1 := by have := h01 a (by simp); omega
+      subst ha1
+      have hall : ∀ x ∈ t, x = 1 := fun x hx => by have := hs.1 x hx; have := h01t x hx; omega
+      have hc : (1 :: t).count 0 = 0 := by
+        rw [List.count_eq_zero]
+        intro h
+        rcases List.mem_cons.mp h with h | h
+        · omega
+        · have := hall 0 h; omega
+      rw [hc]
+      constructor
+      · intro h0
+        have hm : (1 :: t)[i] ∈ (1 :: t) := List.getElem_mem hi
+        rw [h0] at hm
+        rcases List.mem_cons.mp hm with h | h
+        · omega
+        · have := hall 0 h; omega
+      · intro h; omega
+
+/-- **C07 (bisection)**: whatever permutation `argsort` returns for the 0/1 sublattice labels, a vertex labelled 0
+    lands in the first block and a vertex labelled 1 in the second, the boundary being the number of zero labels — so
+    every dimer of the chosen colour (first end labelled 0, second end labelled 1) joins the two halves -/
+theorem bisect_halves (n : Nat) (ordering : List Nat) (hp : C12.IsPerm n ordering) (labels : Nat → Nat) (h01 : ∀ v, labels v ≤ 1)
+    (hs : (ordering.map labels).Pairwise (· ≤ ·)) (a b : Nat) (ha : a < n) (hb : b < n) (hla : labels a = 0) (hlb : labels b = 1) :
+    ordering.idxOf a < (ordering.map labels).count 0 ∧ (ordering.map labels).count 0 ≤ ordering.idxOf b := by
+  have hma := hp.mem a ha
+  have hmb := hp.mem b hb
+  have hia : ordering.idxOf a < ordering.length := List.idxOf_lt_length_iff.mpr hma
+  have hib : ordering.idxOf b < ordering.length := List.idxOf_lt_length_iff.mpr hmb
+  have h01' : ∀ x ∈ ordering.map labels, x ≤ 1 := by
+    intro x hx; obtain ⟨v, _, rfl⟩ := List.mem_map.mp hx; exact h01 v
+  have ga := sorted01_split (ordering.map labels) hs h01' (ordering.idxOf a) (by simpa using hia)
+  have gb := sorted01_split (ordering.map labels) hs h01' (ordering.idxOf b) (by simpa using hib)
+  simp only [List.getElem_map, List.getElem_idxOf] at ga gb
+  constructor
+  · exact ga.mp hla
+  · by_contra hlt
+    have := gb.mpr (by omega)
+    omega
+
+/-- the boundary between the halves is the number of vertices labelled 0 (half of them for a perfect matching) -/
+theorem zero_count (n : Nat) (ordering : List Nat) (hp : C12.IsPerm n ordering) (labels : Nat → Nat) :
+    (ordering.map labels).count 0 = ((List.range n).map labels).count 0 := by
+  have hsub : ordering ⊆ List.range n := fun x hx => List.mem_range.mpr (hp.lt x hx)
+  have hperm : ordering.Perm (List.range n) := (hp.nodup.subperm hsub).perm_of_length_le (by simp [hp.len])
+  exact (hperm.map labels).count_eq 0
 
 end C07
